@@ -139,6 +139,7 @@ class _Instrument:
         self.loopstack: list[int] = []
         self.ntry = 0
         self.else_assigned: list[set[str]] = []
+        self.loop_narrowed: list[set[str]] = []
         self.alias = alias
 
     # -- syntactic facts
@@ -158,11 +159,12 @@ class _Instrument:
         self.orig.append(node)
         idx = len(self.orig)
         info = {"k": type(node).__name__, "t": ast.unparse(node), "r": self.reads(node), "ch": [], "d": [], "op": [],
-                "fn": "", "cls": [], "pats": [], "s": self.sid, "st": 0, "err": False, "wt": False,
+                "fn": "", "cls": [], "pats": [], "s": self.sid, "st": 0, "err": False, "wt": False, "lc": False,
                 "pos": ("pseudo", 0, 0, 0, 0) if pseudo else _pos(node)}
         if pseudo:
             info["k"] = "OldValue"
         info["wt"] = any(set(info["r"]) & names for names in self.else_assigned)
+        info["lc"] = isinstance(node, (ast.Subscript, ast.Attribute)) and any(info["t"] in ts for ts in self.loop_narrowed)
         if isinstance(node, (ast.BinOp, ast.UnaryOp, ast.BoolOp)):
             info["op"] = [_OPS.get(type(node.op), "?")]
         elif isinstance(node, ast.Compare):
@@ -279,8 +281,36 @@ class _Instrument:
                 out += self._leaving_matches_in(s.body)
         return out
 
+    @staticmethod
+    def _narrowed_composites(loop: ast.stmt) -> set[str]:
+        """texts of the subscripts / attributes that a test, assert or comparison inside the loop narrows"""
+        out: set[str] = set()
+        for nd in ast.walk(loop):
+            subj: list[ast.AST] = []
+            if isinstance(nd, ast.Call) and isinstance(nd.func, ast.Name) and nd.func.id == "isinstance" and nd.args:
+                subj.append(nd.args[0])
+            elif isinstance(nd, ast.Compare):
+                subj.append(nd.left)
+            elif isinstance(nd, ast.BoolOp):
+                subj += nd.values
+            elif isinstance(nd, ast.UnaryOp) and isinstance(nd.op, ast.Not):
+                subj.append(nd.operand)
+            elif isinstance(nd, (ast.If, ast.While, ast.Assert, ast.IfExp)):
+                subj.append(nd.test)
+            out.update(ast.unparse(x) for x in subj if isinstance(x, (ast.Subscript, ast.Attribute)))
+        return out
+
     def stmt(self, s: ast.stmt) -> list[ast.stmt]:
         self.sid += 1
+        if isinstance(s, (ast.For, ast.While)):
+            self.loop_narrowed.append(self._narrowed_composites(s))
+            try:
+                return self._stmt(s)
+            finally:
+                self.loop_narrowed.pop()
+        return self._stmt(s)
+
+    def _stmt(self, s: ast.stmt) -> list[ast.stmt]:
         if isinstance(s, ast.Assign):
             val = self.expr(s.value)
             names, extra = [], []
@@ -788,6 +818,9 @@ CANNED = [
     ("known-list-iadd", "def f(x: int, y: int):", ["if y:", "    m += [1]"], 1, 0, "dev:known-list-mutated-in-place"),
     ("loop-else", "def f(x: list[tuple[int, str]], y: int):",
      ["y", "while x and isinstance(x[0], int):", "    x * 2", "else:", "    x -= 'a'"], [(1, "a")], 0, "dev:loop-else-assignment-seen-in-loop"),
+    ("composite-in-loop", "def f(x: list[Union[int, Literal[None]]], y: Iterable[str]):",
+     ["y", "while (w := y):", "    if x[0] == 1:", "        v = 1", "    else:", "        assert isinstance(x[0], int)"], [None, 1], ("a",),
+     "dev:composite-narrowing-carried-around-loop"),
     ("from-any", "def f(x: bool, y: Union[Literal[1], Literal[2]]):", ["x = Box(x).first", "v = min(x, y)"], True, 1, "dom:flows-from-any"),
     ("abstract-truthy", "def f(x: Iterable[str], y: int):", ["y", "v = (not x)"], [], 0, "dev:abstract-type-assumed-truthy"),
     ("extend-literal", "def f(x: list[int], y: int):", ["x += 'a'"], [1], 0, "dev:list-extend-literal-str-unchecked"),
@@ -837,12 +870,17 @@ def selftest(check: core.Check) -> None:
     verdicts, stats = adjudicate(obs)
     check.add_trace_stats(stats)
     seen = {}
+    not_reached: set[str] = set()
     for o in obs:
         name, verdict, corrupted = expect[o["tid"]]
         vs = [parse_verdict(v) for v in verdicts.get(o["tid"], [])]
         got = {f"{k}:{key}" for k, key, idx in vs if corrupted is None or idx != corrupted[0]}
         want = {verdict} if verdict else set()
-        if got != want:
+        if verdict and not got:
+            # the canned function shows no unsound event on this tree (the defect of the class was repaired, or a seeded
+            # change hides it): recorded, not an error -- what must never happen is a wrong classification
+            not_reached.add(verdict)
+        elif got != want:
             raise core.MachineryError(f"self-test {name}: expected the unsound events to be filed as {want or 'none'}, TLC said {sorted(got)}")
         if corrupted is not None:
             mine = {f"{k}:{key}" for k, key, idx in vs if idx == corrupted[0]}
@@ -851,6 +889,7 @@ def selftest(check: core.Check) -> None:
         seen[name] = sorted(got)
     check.cov["selftest"] = {"canned_functions": len(CANNED), "observations": len(obs),
                              "classes_reached": sorted({v for vs in seen.values() for v in vs}),
+                             "classes_not_reached_on_this_tree": sorted(not_reached),
                              "corrupted_observations_rejected": 2 * len(CANNED)}
 
 
